@@ -238,11 +238,12 @@ theorem handleRelease_spec {r : RSys} (h : r.RegInv) (x : RConn) (app side : Str
     · exact go _
     · exact go _
     · rename_i n held
-      trace_state
       by_cases hne : n ≠ held
-      · simp only [hne, not_false_eq_true, if_true]
+      · simp only [ne_eq] at hne ⊢
+        simp only [hne, not_false_eq_true, if_true]
         exact ⟨h.sendError _ _, rfl⟩
-      · simp only [hne, if_false]
+      · simp only [ne_eq, Decidable.not_not] at hne ⊢
+        simp only [hne, not_true_eq_false, if_false]
         exact go _
 
 end RSys
